@@ -255,6 +255,16 @@ func verifDir() string {
 	return "/verif"
 }
 
+// outDir is where evidence and replays are written: VERIF_DIR, unless VERIF_OUT
+// redirects them (runs against a scratch checkout must not overwrite the
+// evidence of the real tree).
+func outDir() string {
+	if d := os.Getenv("VERIF_OUT"); d != "" {
+		return d
+	}
+	return verifDir()
+}
+
 // Main is the entry point used by cmd/vcheck.
 func Main(args []string) int {
 	if len(args) >= 3 && args[1] == "--replay" {
@@ -576,7 +586,7 @@ func parentMain(ck *Check, tier string) int {
 		fmt.Println("MERGED " + string(out))
 		return 0
 	}
-	os.RemoveAll(filepath.Join(verifDir(), "replays", ck.ID))
+	os.RemoveAll(filepath.Join(outDir(), "replays", ck.ID))
 	// Known findings.
 	kf := loadKnown()
 	var keys []string
@@ -694,7 +704,7 @@ type replayFile struct {
 
 func writeReplay(id string, v Violation) string {
 	h := sha1.Sum([]byte(v.Key))
-	dir := filepath.Join(verifDir(), "replays", id)
+	dir := filepath.Join(outDir(), "replays", id)
 	os.MkdirAll(dir, 0o755)
 	p := filepath.Join(dir, hex.EncodeToString(h[:6])+".json")
 	rf := replayFile{Property: id, Key: v.Key, What: v.What, Case: v.Case,
@@ -790,7 +800,7 @@ func writeEvidence(m *Merged, newViol, known int, wall float64) {
 		"violations":  newViol,
 	}
 	data, _ := json.MarshalIndent(e, "", " ")
-	dir := filepath.Join(verifDir(), "evidence")
+	dir := filepath.Join(outDir(), "evidence")
 	os.MkdirAll(dir, 0o755)
 	os.WriteFile(filepath.Join(dir, ck.ID+".json"), append(data, '\n'), 0o644)
 }
